@@ -292,7 +292,8 @@ kastore_read_descriptors(kastore_t *self)
             goto out;
         }
         self->items[j].type = (int) type;
-        if (key_start + key_len > self->file_size) {
+        /* Written so that key_start + key_len cannot wrap around */
+        if (key_start > self->file_size || key_len > self->file_size - key_start) {
             goto out;
         }
         self->items[j].key_start = (size_t) key_start;
@@ -301,7 +302,8 @@ kastore_read_descriptors(kastore_t *self)
         if (array_len > self->file_size / type_size(type)) {
             goto out;
         }
-        if (array_start + array_len * type_size(type) > self->file_size) {
+        if (array_start > self->file_size
+            || array_len * type_size(type) > self->file_size - array_start) {
             goto out;
         }
         self->items[j].array_start = (size_t) array_start;
@@ -394,7 +396,12 @@ kastore_read_file(kastore_t *self)
     /* Read in up to the start of first array. This will contain all the keys. */
     size = self->items[0].array_start;
 
-    assert(size > offset);
+    /* The descriptors were checked to be packed, so size >= offset; they are
+     * equal only when every key is empty, which no writer produces. */
+    if (size <= offset) {
+        ret = KAS_ERR_BAD_FILE_FORMAT;
+        goto out;
+    }
     size -= offset;
 
     self->key_read_buffer = (char *) malloc(size);
